@@ -571,3 +571,127 @@ func (c *Ctx) LockAnalyses(rel string, tokens []string) map[string][]*LockAnalys
 	}
 	return all
 }
+
+// NoBlockingWhileHolding: at every blocking construct (channel send/receive,
+// select, WaitGroup.Wait, Cond.Wait) of the analysed functions, none of the
+// short mutexes (matched by key suffix) may be held. One obligation per
+// blocking construct that lies inside some critical section of such a mutex
+// in its function, plus one summary obligation per package.
+func (c *Ctx) NoBlockingWhileHolding(rule, rel string, all map[string][]*LockAnalysis, short []string) {
+	p := c.pkg(rel)
+	if p == nil {
+		return
+	}
+	isShort := func(k string) bool {
+		for _, s := range short {
+			if strings.HasSuffix(k, s) {
+				return true
+			}
+		}
+		return false
+	}
+	nOps, nBad := 0, 0
+	var names []string
+	for n := range all {
+		names = append(names, n)
+	}
+	sort.Strings(names)
+	for _, name := range names {
+		for _, a := range all[name] {
+			check := func(n ast.Node, what string, probe ast.Node) {
+				nOps++
+				h, ok := a.HeldAt[probe]
+				if !ok {
+					return
+				}
+				for k := range h {
+					if isShort(k) {
+						nBad++
+						c.Bad(rule, a.Name+" › "+what+" while holding "+k, n.Pos(), "blocking operation executed while a short mutex is held: every other user of "+k+" blocks for as long as this waits")
+					}
+				}
+			}
+			ownInspect(a.Body, func(n ast.Node) bool {
+				switch n := n.(type) {
+				case *ast.SelectStmt:
+					// state at the select = state at its first comm's channel expression, or any node inside
+					var probe ast.Node
+					hasDefault := false
+					for _, cl := range n.Body.List {
+						cc := cl.(*ast.CommClause)
+						if cc.Comm == nil {
+							hasDefault = true
+						}
+					}
+					ast.Inspect(n, func(m ast.Node) bool {
+						if probe == nil {
+							if _, ok := a.HeldAt[m]; ok {
+								probe = m
+							}
+						}
+						return probe == nil
+					})
+					if !hasDefault && probe != nil {
+						check(n, "select", probe)
+					}
+					// the comm statements are part of the select; do not report them again
+					for _, cl := range n.Body.List {
+						cc := cl.(*ast.CommClause)
+						for _, st := range cc.Body {
+							ownInspect(st, func(m ast.Node) bool { return true })
+						}
+					}
+					return true
+				case *ast.SendStmt:
+					if !insideSelectComm(a.Body, n) {
+						check(n, "channel send", firstProbe(a, n))
+					}
+				case *ast.UnaryExpr:
+					if n.Op == token.ARROW && !insideSelectComm(a.Body, n) {
+						check(n, "channel receive", firstProbe(a, n))
+					}
+				case *ast.CallExpr:
+					if sel, ok := n.Fun.(*ast.SelectorExpr); ok && sel.Sel.Name == "Wait" {
+						if f, ok := p.TypesInfo.ObjectOf(sel.Sel).(*types.Func); ok && f.Pkg() != nil && f.Pkg().Path() == "sync" {
+							check(n, "Wait", n)
+						}
+					}
+				}
+				return true
+			})
+		}
+	}
+	if nBad == 0 {
+		c.OK(rule, rel+" › "+itoa(nOps)+" blocking constructs", token.NoPos, "none of the package's blocking constructs executes with a short mutex ("+strings.Join(short, ", ")+") held")
+	}
+}
+
+func firstProbe(a *LockAnalysis, n ast.Node) ast.Node {
+	var probe ast.Node
+	ast.Inspect(n, func(m ast.Node) bool {
+		if probe == nil {
+			if _, ok := a.HeldAt[m]; ok {
+				probe = m
+			}
+		}
+		return probe == nil
+	})
+	if probe == nil {
+		return n
+	}
+	return probe
+}
+
+// insideSelectComm reports whether node n is (part of) the communication of a select clause.
+func insideSelectComm(body ast.Node, n ast.Node) bool {
+	found := false
+	ast.Inspect(body, func(m ast.Node) bool {
+		if cc, ok := m.(*ast.CommClause); ok && cc.Comm != nil {
+			if cc.Comm.Pos() <= n.Pos() && n.End() <= cc.Comm.End() {
+				found = true
+			}
+		}
+		return !found
+	})
+	return found
+}
